@@ -142,7 +142,10 @@ pub fn unique_edges(all_edges: &[[u32; 2]]) -> Vec<([u32; 2], usize)> {
 fn boundary_loops(mut boundary_map: HashMap<u32, Vec<u32>>) -> Result<Vec<Vec<u32>>> {
     let mut all_loops = Vec::new();
 
-    while let Some(&start_id) = boundary_map.keys().next() {
+    // Start every loop at the smallest remaining vertex index: the iteration order of the map is
+    // random, and downstream results (for example the conformal flattening) depend on where the
+    // loop starts
+    while let Some(start_id) = boundary_map.keys().min().copied() {
         let mut working = vec![start_id];
         loop {
             let last_id = *working.last().unwrap();
